@@ -74,6 +74,8 @@ def level_valid(R, prog):
                 raise Unknown('variable %s' % e['name'])
             if e['k'] == 'call' and strip_targs(e.get('fn') or '').endswith('::size'):
                 return cls['size']
+            if e['k'] == 'call' and strip_targs(e.get('fn') or '').endswith('::empty') and not e.get('args'):
+                return 1 if cls['size'] == 0 else 0
             if e['k'] == 'call' and e.get('op') == '[]':
                 i = ev_int(e['args'][0], cls)
                 if i >= cls['size']:
@@ -147,52 +149,92 @@ def level_valid(R, prog):
 
     ev_int, truth = make_eval(f, None, size_names, counter)
 
+    def taken(node, c, cls, lvl, ev_int=None, truth=None):
+        """is the CFG edge with condition c taken for this component class and level?  (if/else, switch case, switch default)"""
+        if isinstance(c[3], tuple) and c[3][0] in ('case', 'default'):
+            v = _ev_int(c[2], cls, lvl)
+            if c[3][0] == 'case':
+                return v == c[3][1]
+            others = [cc[3][1] for _, cc in node.succs if cc is not None and isinstance(cc[3], tuple) and cc[3][0] == 'case']
+            return v not in others
+        return _truth(c[2], cls, lvl) == c[3]
+    _ev_int, _truth = ev_int, truth
+
+    def walk_body(cls, start):
+        results = set()
+        stack = [(body[0], start, 0)]
+        steps = 0
+        while stack:
+            nid, delta, depth = stack.pop()
+            steps += 1
+            if steps > 2000:
+                raise Unknown('walk did not terminate')
+            node = G.nodes[nid]
+            lvl = [delta]
+            rejected = False
+            for ev in node.evs:
+                if ev.kind == 'unop' and ev.e['op'] in ('++', '--') and (f.x(f.skip(ev.e['sub'])) or {}).get('decl') in counter:
+                    lvl[0] += 1 if ev.e['op'] == '++' else -1
+                elif ev.kind == 'binop' and ev.e['op'] in ('+=', '-=') and (f.x(f.skip(ev.e['l'])) or {}).get('decl') in counter:
+                    lvl[0] += (1 if ev.e['op'] == '+=' else -1) * ev_int(ev.e['r'], cls)
+                elif ev.kind == 'return':
+                    results.add(('return', f.const(ev.e['sub']) if f.const(ev.e['sub']) is not None else (1 if truth(ev.e['sub'], cls, lvl) else 0), lvl[0]))
+                    rejected = True
+            if rejected:
+                continue
+            if nid == head.id or not node.succs:
+                results.add(('next', None, lvl[0]))
+                continue
+            for s2, c in node.succs:
+                if s2 == head.id or G.nodes[s2].bid == head.bid:
+                    results.add(('next', None, lvl[0]))
+                    continue
+                if c is None or taken(node, c, cls, lvl):
+                    stack.append((s2, lvl[0], depth + 1))
+        return results
+
+    def after_loop(level):
+        """verdicts the function can return once the components are exhausted, with the counter at `level`"""
+        out = set()
+        stack = [s2 for s2, c in head.succs if c is not None and c[3] is False]
+        seen = set()
+        while stack:
+            nid = stack.pop()
+            if nid in seen:
+                continue
+            seen.add(nid)
+            node = G.nodes[nid]
+            done = False
+            for ev in node.evs:
+                if ev.kind == 'return':
+                    cv = f.const(ev.e['sub'])
+                    out.add(cv if cv is not None else (1 if truth(ev.e['sub'], dict(size=1, c0='a', c1=None), [level]) else 0))
+                    done = True
+            if done:
+                continue
+            for s2, c in node.succs:
+                if c is None or taken(node, c, dict(size=1, c0='a', c1=None), [level]):
+                    stack.append(s2)
+        return out
+
     for cname, cls, want in CLASSES:
         key = '%s.K12:photon::fs::Path::level_valid:%s' % (P, cname)
         try:
-            # walk the body from its entry until control returns to the loop head or the function returns
-            results = set()
-            stack = [(body[0], cls.get('start', 0), 0)]
-            steps = 0
-            while stack:
-                nid, delta, depth = stack.pop()
-                steps += 1
-                if steps > 2000:
-                    raise Unknown('walk did not terminate')
-                node = G.nodes[nid]
-                lvl = [delta]
-                rejected = False
-                for ev in node.evs:
-                    if ev.kind == 'unop' and ev.e['op'] in ('++', '--') and (f.x(f.skip(ev.e['sub'])) or {}).get('decl') in counter:
-                        lvl[0] += 1 if ev.e['op'] == '++' else -1
-                    elif ev.kind == 'binop' and ev.e['op'] in ('+=', '-=') and (f.x(f.skip(ev.e['l'])) or {}).get('decl') in counter:
-                        lvl[0] += (1 if ev.e['op'] == '+=' else -1) * ev_int(ev.e['r'], cls)
-                    elif ev.kind == 'return':
-                        results.add(('return', f.const(ev.e['sub']), lvl[0]))
-                        rejected = True
-                if rejected:
-                    continue
-                if nid == head.id or not node.succs:
-                    results.add(('next', None, lvl[0]))
-                    continue
-                for s, c in node.succs:
-                    if s == head.id or G.nodes[s].bid == head.bid:
-                        results.add(('next', None, lvl[0]))
-                        continue
-                    if c is None:
-                        stack.append((s, lvl[0], depth + 1))
-                    else:
-                        # level starts at 0 at loop entry of this abstract walk: the `< 0` test is evaluated for the worst case level==0
-                        if truth(c[2], cls, lvl) == c[3]:
-                            stack.append((s, lvl[0], depth + 1))
-            if want == -1 and not getattr(level_valid, '_second', False):
-                pass
+            results = walk_body(cls, cls.get('start', 0))
             nexts = sorted(set(r[2] for r in results if r[0] == 'next'))
             rets = [r for r in results if r[0] == 'return']
             if want == -1:
-                ok = nexts == [] and all(r[1] == 0 and r[2] == -1 for r in rets) and rets   # from level 0: must reject
-                # and from a positive level it must continue with -1: re-walk with level 1 is equivalent to checking the test is `< 0`
-                detail = 'from depth 0 a ".." rejects (return false) right after the decrement: %s' % sorted(results)
+                ok = nexts == [] and all(r[1] == 0 and r[2] == -1 for r in rets) and bool(rets)   # from level 0: rejected at once
+                detail = 'from depth 0 a ".." rejects (return false) right after the decrement: %s' % sorted(results, key=str)
+                if not ok and nexts == [-1] and not rets:
+                    # deferred rejection: then EVERY continuation from depth -1 must reject - another component of any class, and the end of the path
+                    cont = set()
+                    for _, c2, _ in CLASSES:
+                        cont |= set(walk_body(c2, -1))
+                    fin = after_loop(-1)
+                    ok = all(r[0] == 'return' and r[1] == 0 for r in cont) and fin == {0}
+                    detail = 'a ".." from depth 0 leaves depth -1; every continuation must then reject: next component -> %s, end of path -> %s' % (
+                        sorted(set((r[0], r[1]) for r in cont), key=str), sorted(fin))
             elif want == 'up':
                 ok = nexts == [0] and not rets
                 detail = 'from depth 1 a ".." continues at depth 0 without rejecting: %s' % sorted(results, key=str)
@@ -204,7 +246,7 @@ def level_valid(R, prog):
             raise AnalysisBroken('C20.K12: level_valid uses a test the component abstraction does not know (%s) for class %s' % (u, cname))
     # final verdict of the function: true only after the loop
     res = an.run(G, [an.GuardTracker(lambda k: True)])
-    K.check_at(R, P + '.K12', G, res, lambda ev: ev.kind == 'return' and ev.depth == 0 and ev.f.const(ev.e['sub']) == 1,
+    K.check_at(R, P + '.K12', G, res, lambda ev: ev.kind == 'return' and ev.depth == 0 and ev.f.const(ev.e['sub']) != 0,
                require=lambda st, ev: any(re.match(r'^G:__begin\d* == __end\d*=T$', x) or re.match(r'^G:__begin\d* != __end\d*=F$', x) for x in st),
                key_fn=lambda ev: P + '.K12:photon::fs::Path::level_valid:accept-only-after-all-components',
                describe=lambda ev: 'true is returned only after every component was examined', min_sites=1, what='return true')
